@@ -57,6 +57,12 @@ def agg_shapes(t):
                    agg_expected([n0], [("sum", n1), ("sum", n1)], [f"{s1}_sum2"])))
     shapes.append(("all", [c0], {f"{f}_over": c1 for f in FN_ORDER}, agg_expected([n0], [(f, n1) for f in FN_ORDER], [])))
     shapes.append(("keys-g-g2-g", [c0, c1, c0], {"max_over": c0}, agg_expected([n0, n1, n0], [("max", n0)], [])))
+    # a KEY whose stored name is the very name an output asks for: keys are named first, the output takes the numeric suffix
+    from serif import Vector
+    klike = Vector(list(c0._underlying), name=f"{s1}_sum")
+    shapes.append(("key-named-like-an-output", [klike], {"sum_over": c1, "count_over": c1}, agg_expected([f"{s1}_sum"], [("sum", n1), ("count", n1)], [])))
+    kname = n0 or "key"
+    shapes.append(("apply-named-like-the-key", [c0], {"sum_over": c1, "apply": {kname: (c1, len)}}, agg_expected([n0], [("sum", n1)], [kname])))
     return shapes
 
 
@@ -140,6 +146,13 @@ def step_checks(agg, obj, depth, out):
         r = attempt(f"table.{lab}", case, th)
         if r is not None and type(r).__name__ == "Table":
             ok(f"table.{lab}", dict(case, op=lab), N, vnames(r), ("T", r) if lab in ("row-slice", "sort_by") else None)
+    # 2-D block selections: the names of exactly the selected columns, in the selected order
+    W_ = len(N)
+    for lab, rs, cs in (("block-tail-columns", slice(0, 2), slice(1, None)), ("block-last-column", slice(None), slice(W_ - 1, None)), ("block-reversed-columns", slice(None), slice(None, None, -1)),
+                        ("block-every-2nd-column", slice(0, 1), slice(None, None, 2)), ("block-first-column", slice(None, None, -1), slice(0, 1)), ("block-middle", slice(1, None), slice(1, 2))):
+        r = attempt(f"table.{lab}", case, lambda: t[rs, cs])
+        if r is not None and type(r).__name__ == "Table":
+            ok(f"table.{lab}", dict(case, op=lab), N[cs], vnames(r))
     # column selection by stored names (first occurrence semantics): names in request order
     strs = [n for n in N if isinstance(n, str)]
     for L in (1, 2):
@@ -287,6 +300,8 @@ def run_unit(unit):
     if what == "vec":
         for nm in NAMES:
             seeds.append(("V", Vector([3, 1, 2], name=nm)))
+            seeds.append(("V", Vector([3, None, 2], name=nm)))        # the same rules for a vector that holds None
+            seeds.append(("V", Vector(["b", "a", None], name=nm)))
     else:
         names = unit[1]
         cols = [Vector([3, 1, 2][:3] if i == 0 else [10 * (i + 1) + j for j in range(3)], name=nm) for i, nm in enumerate(names)]
